@@ -20,6 +20,7 @@ pub use shuttle::sync::mpsc::{RecvError, RecvTimeoutError, SendError, TryRecvErr
 pub struct Probes {
     pub avail_calls: u32,
     pub channels: u32,
+    pub spawns: u32,
     pub sends: u32,
     pub send_errs: u32,
     pub recvs_ok: u32,
@@ -41,7 +42,7 @@ pub struct Probes {
 thread_local! {
     static AVAIL: Cell<Option<usize>> = const { Cell::new(Some(1)) };
     static PROBES: Cell<Probes> = const { Cell::new(Probes {
-        avail_calls: 0, channels: 0, sends: 0, send_errs: 0, recvs_ok: 0,
+        avail_calls: 0, channels: 0, spawns: 0, sends: 0, send_errs: 0, recvs_ok: 0,
         recvs_disc: 0, recv_on_empty: 0, try_recv_empty: 0, timer_fires: 0, timer_polls: 0,
         sender_clones: 0, last_sender_drop_while_recv_waiting: 0, clones_at_first_recv: 0,
         sleeps: 0, yields: 0 }) };
@@ -74,10 +75,7 @@ pub fn sim_set_timer_max_polls(n: u32) {
 pub mod thread {
     //! Stand-in for `std::thread` (superset of what the library uses).
     use super::*;
-    pub use shuttle::thread::{
-        current, park, scope, spawn, Builder, JoinHandle, Scope, ScopedJoinHandle, Thread,
-        ThreadId,
-    };
+    pub use shuttle::thread::{current, park, spawn, Builder, JoinHandle, Thread, ThreadId};
 
     pub type Result<T> = std::thread::Result<T>;
 
@@ -104,6 +102,65 @@ pub mod thread {
         shuttle::thread::park_timeout(d)
     }
 
+    /// `std::thread::Scope` stand-in. shuttle's `spawn` has its scheduling point *before* the new
+    /// task exists, so the spawner could never be pre-empted between a spawn and its next
+    /// statement; a real spawner can. The wrapper adds that point after every spawn.
+    pub struct Scope<'scope, 'env: 'scope> {
+        inner: *const (),
+        _scope: std::marker::PhantomData<&'scope mut &'scope ()>,
+        _env: std::marker::PhantomData<&'env mut &'env ()>,
+    }
+    // only ever used from the coroutines of one shuttle execution (one OS thread)
+    unsafe impl Sync for Scope<'_, '_> {}
+
+    pub struct ScopedJoinHandle<'scope, T> {
+        inner: shuttle::thread::ScopedJoinHandle<'scope, T>,
+    }
+    impl<'scope, T> ScopedJoinHandle<'scope, T> {
+        pub fn join(self) -> Result<T> {
+            self.inner.join()
+        }
+        pub fn is_finished(&self) -> bool {
+            self.inner.is_finished()
+        }
+        pub fn thread(&self) -> &Thread {
+            self.inner.thread()
+        }
+    }
+
+    impl<'scope, 'env> Scope<'scope, 'env> {
+        pub fn spawn<F, T>(&'scope self, f: F) -> ScopedJoinHandle<'scope, T>
+        where
+            F: FnOnce() -> T + Send + 'scope,
+            T: Send + 'scope,
+        {
+            // SAFETY: `inner` points at the shuttle scope object that `scope()` below borrowed for
+            // the whole call of the user's closure; shuttle's scope outlives `'scope` and joins
+            // every spawned task before it returns, exactly like std's.
+            let real: &'scope shuttle::thread::Scope<'scope, 'env> = unsafe { &*(self.inner as *const shuttle::thread::Scope<'scope, 'env>) };
+            bump(|p| p.spawns += 1);
+            let h = real.spawn(f);
+            sched_point();
+            ScopedJoinHandle { inner: h }
+        }
+    }
+
+    pub fn scope<'env, F, T>(f: F) -> T
+    where
+        F: for<'scope> FnOnce(&'scope Scope<'scope, 'env>) -> T,
+    {
+        shuttle::thread::scope(|s| {
+            let w = Scope { inner: s as *const _ as *const (), _scope: std::marker::PhantomData, _env: std::marker::PhantomData };
+            f(&w)
+        })
+    }
+}
+
+/// A plain scheduling point (not a yield hint, which would bias PCT); never while unwinding.
+fn sched_point() {
+    if !std::thread::panicking() {
+        shuttle::thread::sleep(Duration::from_millis(0));
+    }
 }
 
 struct Shared {
@@ -139,14 +196,19 @@ impl<T> Sender<T> {
             }
             Err(_) => bump(|p| p.send_errs += 1),
         }
+        sched_point();
         r
     }
 }
 impl<T> Clone for Sender<T> {
     fn clone(&self) -> Self {
+        // shuttle's clone has no scheduling point; a real thread can be pre-empted on either side
+        sched_point();
         bump(|p| p.sender_clones += 1);
         self.shared.senders.fetch_add(1, Relaxed);
-        Sender { inner: self.inner.clone(), shared: self.shared.clone() }
+        let c = Sender { inner: self.inner.clone(), shared: self.shared.clone() };
+        sched_point();
+        c
     }
 }
 impl<T> Drop for Sender<T> {
@@ -155,9 +217,7 @@ impl<T> Drop for Sender<T> {
         // own `Sender::drop` has no scheduling point, which would make e.g. "send; drop" atomic
         // and the spawning thread's `drop(tx)` atomic with its last spawn). `sleep` is a plain
         // scheduling point (not a yield hint, which would bias PCT). Never while unwinding.
-        if !std::thread::panicking() {
-            shuttle::thread::sleep(Duration::from_millis(0));
-        }
+        sched_point();
         let left = self.shared.senders.fetch_sub(1, Relaxed) - 1;
         if left == 0
             && self.shared.receiver_waiting.load(Relaxed)
@@ -201,6 +261,7 @@ impl<T> Receiver<T> {
             Ok(_) => self.got(),
             Err(_) => bump(|p| p.recvs_disc += 1),
         }
+        sched_point();
         r
     }
 
